@@ -117,7 +117,13 @@ class _Arm:
         return self
 
 
-@analysis("storage", ["C05.a", "C05.e", "C05.g", "C05.h", "C05.k", "C05.o"])
+rule("C05.p", "the series reported for an asset (charge, discharge, internal variables, fill level) are read off the solution: a column of the "
+              "report is accumulated from res.x (times the dispatch factor) or taken from fill_level(); no reported column is recomputed from "
+              "other reported columns afterwards (netting charge against discharge hides simultaneous charging and discharging: start level "
+              "+ efficiency x charge - discharge no longer gives the level)", floor=2, props=["C05", "C01"])
+
+
+@analysis("storage", ["C05.a", "C05.e", "C05.g", "C05.h", "C05.k", "C05.o", "C05.p"])
 def run(ctx):
     p = ctx.p
     sto = p.cls("Storage")
@@ -397,3 +403,53 @@ def run(ctx):
                ok_detail="- size")
     if not found:
         ctx.ob("C05.h", setup, "coefficient of the 'is filled' binary", None, "no sp.diags(...) coefficient block found in the holding-duration block")
+
+
+    # ================================================================= C05.p reported series are read off the solution
+    xo = p.fn_opt("io.extract_output")
+    if xo is None:
+        ctx.ob("C05.p", "io", "report columns", None, "io.extract_output not found")
+    else:
+        # frames that are filled column by column: F[<key>] = <initial constant>
+        frames = {}
+        for st in au.walk_stmts(xo.body):
+            if isinstance(st, ast.Assign) and len(st.targets) == 1 and isinstance(st.targets[0], ast.Subscript) and isinstance(st.targets[0].value, ast.Name) \
+                    and isinstance(st.value, ast.Constant) and not isinstance(st.targets[0].slice, (ast.Slice, ast.Tuple)):
+                frames.setdefault(st.targets[0].value.id, 0)
+                frames[st.targets[0].value.id] += 1
+        loc_filled = {au.base_name(t0) for st in au.walk_stmts(xo.body) if isinstance(st, (ast.Assign, ast.AugAssign)) for t0 in au.stmt_targets(st)
+                      if isinstance(t0, ast.Subscript) and isinstance(t0.value, ast.Attribute) and t0.value.attr in ("loc", "iloc", "at")}
+        frames = {f for f, k in frames.items() if k >= 1 and f in loc_filled}
+        n_p = 0
+        for st in au.walk_stmts(xo.body):
+            if not isinstance(st, (ast.Assign, ast.AugAssign)):
+                continue
+            for t0 in au.stmt_targets(st):
+                base = t0
+                while isinstance(base, (ast.Subscript, ast.Attribute)):
+                    base = base.value
+                if not (isinstance(t0, ast.Subscript) and isinstance(base, ast.Name) and base.id in frames):
+                    continue
+                if isinstance(st.value, ast.Constant):
+                    continue
+                n_p += 1
+                reads = [x for x in au.walk_local(st.value) if isinstance(x, ast.Name) and x.id == base.id and isinstance(x.ctx, ast.Load)]
+                # re-scaling a selection of the frame in place (F.loc[s] = F.loc[s] / n) reads what it writes: not another column
+                same = [y for y in au.walk_local(st.value) if isinstance(y, ast.Subscript) and au.U(y) == au.U(t0)]
+                if same and len(reads) == len(same):
+                    reads = []
+                # through locals: net = F[a] + F[b]; F[a] = maximum(0, net)
+                if not reads:
+                    for x in au.walk_local(st.value):
+                        if isinstance(x, ast.Name) and isinstance(x.ctx, ast.Load):
+                            r = ctx.resolve(xo, x, st)
+                            if r is not x and any(isinstance(y, ast.Name) and y.id == base.id for y in au.walk_local(r)):
+                                reads.append(x)
+                self_acc = isinstance(st, ast.AugAssign)
+                ctx.ob("C05.p", xo, au.short(st, 80), not reads or self_acc and not reads,
+                       "the reported column %s is computed from other columns of the report (%s), not from the solution: what the solver decided "
+                       "per variable is no longer what is reported - a storage that charges and discharges in the same step (two nodes, efficiency, "
+                       "negative prices) is reported with the net flow only; start level + efficiency x charge - discharge deviates from the level "
+                       "by 1.2" % (au.short(t0, 40), au.short(reads[0], 30) if reads else ""), node=st)
+        if n_p == 0:
+            ctx.ob("C05.p", xo, "report columns", None, "no column-wise filled report frame found")
